@@ -86,6 +86,16 @@ func c12Bases() []c12Base {
 				sendAllS(U, lst(sa("a"), &gen.SrcCapped{Cap: gen.Mon(U, "2"), From: sa("b")}), da("x")),
 				&gen.Call{Name: "set_tx_meta", Args: []gen.Expr{gen.Str("k"), &gen.Infix{Op: "-", L: gen.Num("1"), R: gen.Num("3")}}}}}
 		}, nil, map[string]string{}},
+		{"meta-six", func() *gen.Program {
+			return &gen.Program{Vars: []*gen.VarDecl{decl("number", "n"), decl("monetary", "amt"), decl("portion", "p"), decl("string", "s"), decl("account", "src"), decl("asset", "as")},
+				Stmts: []gen.Stmt{
+					&gen.Call{Name: "set_tx_meta", Args: []gen.Expr{gen.Str("n"), v("n")}},
+					&gen.Call{Name: "set_tx_meta", Args: []gen.Expr{gen.Str("m"), v("amt")}},
+					&gen.Call{Name: "set_account_meta", Args: []gen.Expr{v("src"), gen.Str("p"), v("p")}},
+					&gen.Call{Name: "set_tx_meta", Args: []gen.Expr{v("s"), v("as")}},
+					&gen.Call{Name: "set_account_meta", Args: []gen.Expr{v("src"), gen.Str("n"), v("n")}},
+				}}
+		}, nil, map[string]string{"n": "5", "amt": "USD 4", "p": "1/2", "s": "k", "src": "a", "as": "USD"}},
 		{"infix-mon", func() *gen.Program {
 			return &gen.Program{Vars: []*gen.VarDecl{decl("monetary", "amt")},
 				Stmts: []gen.Stmt{&gen.Send{Sent: &gen.SentLit{E: &gen.Infix{Op: "+", L: v("amt"), R: gen.Mon(U, "2")}},
@@ -225,7 +235,7 @@ func runC12(w *mc.Worker) {
 		a, b *big.Int
 	}{{"rich", bi(10), bi(10)}, {"poor", bi(0), bi(0)}, {"negative", bi(-3), bi(10)}, {"huge", H, H}}
 	name := fmt.Sprintf("dev%d", total)
-	w.Stage(name, fmt.Sprintf("7 base scripts, at most %d deviation(s) in total (expression/allotment/declaration/call edits, variable values, sheets, metadata), every store call failed in turn", total), func() {
+	w.Stage(name, fmt.Sprintf("8 base scripts, at most %d deviation(s) in total (expression/allotment/declaration/call edits, variable values, sheets, metadata), every store call failed in turn", total), func() {
 		w.Outer(name+"/c12", total, func(o *mc.Explorer) {
 			b := bases[o.Choose(len(bases))]
 			prog := b.Mk()
